@@ -47,7 +47,15 @@ class Repartition(Expr):
             or self.partition_size is not None
         ):
             x = self.optimize(fuse=False)
-            return x.divisions
+            divisions = x.divisions
+            new_partitions = self.operand("new_partitions")
+            if divisions[0] is None and new_partitions is not None:
+                # unknown divisions: the optimized plan may end up with another
+                # partition count (e.g. below a sort); stay consistent with npartitions
+                if isinstance(new_partitions, Callable):
+                    new_partitions = new_partitions(self.frame.npartitions)
+                return (None,) * (new_partitions + 1)
+            return divisions
         return self.new_divisions
 
     @property
